@@ -71,6 +71,17 @@ Theorem C10_checker_sound :
     summary iv None = Ok rows /\ same_series rows arrays = true.
 Proof. exact consistent_sound. Qed.
 
+(* ... hence: every node history is legal, every change time of a node is a time of the
+   summary, and at each of these times the returned time series, read as a step
+   function, gives for each possible status the number of nodes whose node_status is it *)
+Theorem C10_checker_acceptance_means :
+  forall iv arrays tmin mv ps, iv_ps iv = Some ps -> consistent_b iv arrays tmin mv = true ->
+  (forall u, In u (iv_nodes iv) -> exists h, hist_of iv u = Ok h /\ good_histb ps mv tmin h = true) /\
+  exists rows, summary iv None = Ok rows /\
+    (forall u h x, In u (iv_nodes iv) -> hist_of iv u = Ok h -> In x h -> exists t, In t (map fst rows) /\ t == fst x) /\
+    forall t, In t (map fst rows) -> step_at arrays t None = Some (map (count_at iv (iv_nodes iv) t) ps).
+Proof. exact consistent_meaning. Qed.
+
 (* _transform_to_node_history_ (SIR): the history of node u is a function of its
    infection and recovery time only, with the code's reset when a time equals tmin
    ([sir_history]); tables are dicts (duplicate-free keys) *)
@@ -146,6 +157,7 @@ Print Assumptions C10_node_status_spec.
 Print Assumptions C10_get_statuses_spec.
 Print Assumptions C10_log_lemma.
 Print Assumptions C10_checker_sound.
+Print Assumptions C10_checker_acceptance_means.
 Print Assumptions C10_transform_SIR_spec.
 Print Assumptions C10_transform_SIR_histories_legal.
 Print Assumptions C10_transform_SIS_spec.
